@@ -571,5 +571,5 @@ LawCase(case) ==
 ASSUME Step = "laws" =>
   LET cs == SmallCases \o PairCases
       bad == SelectSeq(cs, LAMBDA c : ~LawCase(c))
-  IN PrintT(<<"LAWS", Len(cs), "BAD", Len(bad)>>) /\ bad = <<>>
+  IN PrintT(<<"LAWS", Len(cs)>>) /\ PrintT(<<"BAD", Len(bad)>>) /\ bad = <<>>
 =============================================================================
